@@ -27,6 +27,7 @@ DIMS = dict(
     guesses=[False, True],
     solver=["A", "B"],
     conset=["basic", "offsets", "grids"],
+    qobj=[False, True],      # a Lagrange term written through a user-declared quadrature state and at_tf
 )
 POS = ["fresh", "after_query", "after_solve", "after_update", "after_edit", "after_method", "twice"]
 
@@ -37,7 +38,7 @@ def forbid(a):
 
 def finish(a):
     a = dict(a)
-    scaled, guesses, solver, conset = a.pop("scaled"), a.pop("guesses"), a.pop("solver"), a.pop("conset")
+    scaled, guesses, solver, conset, qobj = a.pop("scaled"), a.pop("guesses"), a.pop("solver"), a.pop("conset"), a.pop("qobj")
     if a["alg"]:
         a["method"] = "DC"
     d = P.case(**a)
@@ -50,6 +51,8 @@ def finish(a):
     if d["vc"]: cons.append(P.con("vc_ge"))
     d["cons"] = cons
     d["obj"] = ["mayer_tf", "integral_t"] + (["vg"] if d["vg"] else []) + (["integral_vc"] if d["vc"] else []) + (["int_z"] if d["alg"] else []) + (["T"] if d["horizon"] in ("Tfree", "bothfree") else [])
+    if qobj:
+        d["obj"] = d["obj"] + ["qstate_t"]
     if scaled:
         d["scales"] = {"x": 3, "u": 0.25, "der_x": 3}
     if guesses:
